@@ -10,6 +10,8 @@ from engine.facts import Facts
 from rules import c10, common
 d,th,n,s=extract.ensure_facts()
 F=Facts(d)
+from engine import roles as _roles, inline as _inline
+_roles.canonicalize(F); _inline.apply(F, _roles.resolve(F).keys())
 ctx=Ctx('C10','quick',F,th)
 rs,nimpl=c10.roots(ctx)
 cl0=ctx.cg.closure(rs,c10.skip)
@@ -108,7 +110,7 @@ FINDINGS = {
  ("roles/src/validator/messages/consensus.rs", 21): "F6",
 }
 def reason_for(s):
-    f=s.fn.file; root=s.key.split(' | ')[1]
+    oq,f=s.origin(); root=s.key.split(' | ')[1]+" "+oq
     for (ff,ln),fid in FINDINGS.items():
         if f.endswith(ff) and s.ln==ln: return None, fid
     best=None
